@@ -262,10 +262,7 @@ def build(chk):
             conj = []
             for k in set(got) | set(exp):
                 d = r_sub(got.get(k, Fraction(0)), exp.get(k, Fraction(0)))
-                if isinstance(d, Fraction):
-                    conj.append(abs(d) <= tol)
-                else:
-                    conj.append(z3.And(d <= z3real(tol), -d <= z3real(tol)))
+                conj.append(within(d, Fraction(0), tol))
             P.require('coefficientwise', b_and(*conj), witness)
             P.h.setdefault('result_types', {})
             P.h['result_types'][rty] = P.h['result_types'].get(rty, 0) + 1
